@@ -94,10 +94,10 @@ class IoProxy:
 def set_buffer_size(bs):
     import io as _io
 
-    from dissect.cobaltstrike import beacon, guardrails, utils, xordecode
+    from dissect.cobaltstrike import artifact, beacon, guardrails, utils, xordecode
 
     proxy = _io if bs is None else IoProxy(bs)
-    for m in (utils, beacon, guardrails, xordecode):
+    for m in (utils, beacon, guardrails, xordecode, artifact):
         m.io = proxy
 
 
